@@ -800,6 +800,7 @@ func checkC04(c *Ctx) {
 	c.Clause("a failed exchange counts towards passive ejection only when its client had not gone away (test of the served request's context)")
 	c.Clause("RemoveBackend deletes the per-name passive failure record under its lock: a backend registered again under the name starts clean")
 	c.Clause("the status the passive check sees is the last one the backend wrote; probe goroutines started in a loop own their loop variable (module Go version < 1.22); the ejection window is the configured unhealthy_timeout on every path")
+	c.Clause("a name identifies one backend: AddBackend refuses a name that is already listed before it changes anything, so the state kept per name (metrics health mirror, passive failure count) describes that backend only")
 	c.NotDecided("exact window arithmetic; bounded interleavings of event histories; what the JSON endpoints print")
 
 	lockDiscipline(c, func(k string) bool {
@@ -809,6 +810,7 @@ func checkC04(c *Ctx) {
 	c.ejectorTotal()
 	c.statusCaptured()
 	c.passiveThreshold()
+	c.backendNamesUnique()
 	c.probeEdges()
 	c.healthMirror()
 	c.recoveryIndependent()
